@@ -897,3 +897,24 @@ Proof.
 Qed.
 
 End Main.
+
+(** [bs] is a BER encoding denoting [v], read with the given fuel (X690.ber_sem
+    with the fuel made explicit) *)
+Definition ber_sem_at (numeric : bool) (e : env) (fuel : nat) (t : ty) (bs : list Z) (v : value) : Prop :=
+  exists x, bwf x = true /\ bser x = bs /\ bread numeric e fuel t x = Some v.
+
+Lemma ber_sem_at_sem numeric e fuel t bs v : ber_sem_at numeric e fuel t bs v -> ber_sem numeric e t bs v.
+Proof. intros (x & Hw & Hs & Hr). exists fuel, x. repeat split; assumption. Qed.
+
+(** C04: every valid BER serialisation is accepted with the value it denotes
+    (all definite length forms, indefinite lengths on every constructed
+    encoding, strings segmented to any depth, SET components in any order and
+    any mixture), whatever follows it in the data (this is also the BER half
+    of the framing property C15: decode_with_length stops behind the message) *)
+Theorem ber_accepts numeric e fuel t bs v :
+  ber_sem_at numeric e fuel t bs v ->
+  in_scope numeric e fuel t = true -> compiles e fuel t = true ->
+  forall tail, Ber.BerImpl.ber_decode numeric fuel e t (bs ++ tail) = Ok (v, length bs).
+Proof.
+  intros (x & Hw & <- & Hr) Hs Hc tail. apply ber_accepts_tree; assumption.
+Qed.
